@@ -13,7 +13,8 @@ RULE = ("case = one generated rule-rich configuration (2-8 arguments; mandatory 
         "the inclusive lower / just below the exclusive upper bound) rendered in up to 6 (quick) / 16 (thorough) spellings "
         "(short, long, abbreviated, '=', glued, grouped, permuted where the rules allow); optional tails: a multi-value list as "
         "separate words ended by a flag and followed by the positional value; a tuple whose three values come in one list, "
-        "in repeated uses or as separate words. Oracle: accepted, and the "
+        "in repeated uses or as separate words; optional head: an argument file that gives one scalar argument of the line, which "
+        "argv then gives again (file values do not count for the cardinality). Oracle: accepted, and the "
         "destinations equal the model (a wrong value is reported under the C01-style key). non-trivial = line with >= 2 "
         "uses in a configuration with >= 1 rule; distinct = hash of (configuration, argv).")
 ASSUMPTIONS = ["python model lib/argh.py: valid() and expected()", "all_of with no member used, and repeated use of one any_of/one_of member, are never generated (documentation ambiguous)",
@@ -69,7 +70,30 @@ def gen_case(seed, idx, tier):
         if tp.multi:
             ttails += [[k()] + v, [k(), v[0] + "," + v[1], v[2]], [k(), v[0], v[1] + "," + v[2]], ["--zz-triple=" + v[0], v[1], v[2]]]
         exp["tu9"] = (int(v[0]), v[1], float(v[2]))
-    c.meta.update(cfg=cfg, uses=uses, argvs=[], exp=exp, tail=bool(tail), ttail=ttails is not None)
+    # optional head: an argument file (named with --arg-file at the start of argv) that already gives one of the scalar
+    # arguments of the line - with the value the command line gives it later. Values from a file do not count for the
+    # cardinality, the later use on argv overrides them: still a command line that obeys every rule
+    head = []
+    # (not an argument that excludes others: used earlier than in the line it would exclude what the line uses in between)
+    scal = [u for u in uses if argh.cat_of(u.arg.slot) == "scalar" and u.elems and not u.arg.excludes and u.arg.default_card()[0] == "max" and u.arg.default_card()[1] == 1
+            and not u.elems[0].startswith("-") and u.elems[0] not in argh.CTRL and u.elems[0].strip() == u.elems[0] and u.elems[0] != ""
+            and not any(ch in u.elems[0] for ch in "'\"\\ \t\n#")]
+    # (nor a member of an any_of / one_of constraint: its repeated use is not judged, see assumptions)
+    inxor = set(id(m) for k, mem, _g in cfg.constraints if k in ("any_of", "one_of") for m in mem)
+    scal = [u for u in scal if id(u.arg) not in inxor]
+    if scal and rng.random() < 0.2 and not any((a.long or "").startswith("arg") for a in cfg.args):
+        u = rng.choice(scal)
+        try:
+            fw, _st = argh.spell_line(cfg, [u], rng, dict(key="long" if u.arg.long else "short", val="word"), group_flags=False)
+        except argh.ModelAbstain:
+            fw = None
+        if fw:
+            cfg.arg_file_key = "arg-file"
+            cfg.files = [("c03/args.txt", "# from the file\n" + " ".join(fw) + "\n")]
+            head = [rng.choice(["--arg-file=@HOME@/c03/args.txt", "--arg-file"])]
+            if head[0] == "--arg-file":
+                head.append("@HOME@/c03/args.txt")
+    c.meta.update(cfg=cfg, uses=uses, argvs=[], exp=exp, tail=bool(tail), ttail=ttails is not None, head=bool(head))
     seen = set()
     for k in range(nsp):
         style = STYLES[k] if k < len(STYLES) else {}
@@ -78,6 +102,8 @@ def gen_case(seed, idx, tier):
             words, st = argh.spell_line(cfg, order, rng, style)
         except argh.ModelAbstain:
             continue
+        if head:
+            words = head + words
         if ttails:
             words = words + ttails[(k + idx) % len(ttails)]
         words = words + tail
@@ -121,6 +147,8 @@ def judge(c, results, rep):
         rep.stat("tail.multi-values_flag_positional")
     if c.meta.get("ttail"):
         rep.stat("tail.tuple_values_over_uses_and_words")
+    if c.meta.get("head"):
+        rep.stat("head.argument_file_value_overridden_on_argv")
     for (sid, text), (words, st, order) in zip(c.scenarios, c.meta["argvs"]):
         r = results[sid]
         for k, v in st.items():
